@@ -611,6 +611,8 @@ def invalid_lists(ctx):
                 rec.outcome("invalid-reported")
     # faults that pass the JSON-schema stage and are caught by the operation's own check of its parameters, at every position
     # of a list that also holds a sound operation of the same type
+    REMAP_GOOD = op("remap_columns", source_columns=["trial_type"], destination_columns=["kind"],
+                    map_list=[["a", "first"], ["b", "second"]], ignore_missing=True)
     data_faults = [
         ("factor-names-length", op("factor_column", column_name="trial_type", factor_values=["a", "b"], factor_names=["isA"]),
          op("factor_column", column_name="code", factor_values=["1", "2"], factor_names=["one", "two"])),
@@ -618,6 +620,14 @@ def invalid_lists(ctx):
                                 map_list=[["a", "first"], ["b"]], ignore_missing=True),
          op("remap_columns", source_columns=["trial_type"], destination_columns=["kind"],
             map_list=[["a", "first"], ["b", "second"]], ignore_missing=True)),
+        # column lists no table can satisfy (a key column that is also a target, a name listed twice): no run can complete, so
+        # the list must not pass
+        ("map-source-is-destination", op("remap_columns", source_columns=["trial_type"], destination_columns=["trial_type"],
+                                         map_list=[["a", "first"], ["b", "second"]], ignore_missing=True), REMAP_GOOD),
+        ("map-source-repeated", op("remap_columns", source_columns=["trial_type", "trial_type"], destination_columns=["kind"],
+                                   map_list=[["a", "a", "first"], ["b", "b", "second"]], ignore_missing=True), REMAP_GOOD),
+        ("map-destination-repeated", op("remap_columns", source_columns=["trial_type"], destination_columns=["kind", "kind"],
+                                        map_list=[["a", "first", "x"], ["b", "second", "y"]], ignore_missing=True), REMAP_GOOD),
         ("anchor-in-match-columns", op("merge_consecutive", column_name="trial_type", event_code="a", set_durations=False,
                                        ignore_missing=True, match_columns=["trial_type"]),
          op("merge_consecutive", column_name="trial_type", event_code="a", set_durations=False, ignore_missing=True)),
